@@ -29,6 +29,12 @@ CHECKS = {
  "C20": dict(cat="exploration", tech="proptest native values and typed literals; XSD lexical recognisers + exact big-integer decimal->binary rounding oracle; round trips through 17 representations and 10 serialiser/parser pairs",
    text="Every edge value and uniform samples of i32/isize/usize/bool/f64/str as terms: lexical form must be in the XSD lexical space, value must come back identical through every representation and NT/NQ/Turtle/TriG/RDF-XML/JSON-LD round trips; arbitrary literals: conversions never panic and successes equal an independent exact parse.",
    note="Trusted: harness XSD recognisers and exact rounding oracle. Ill-typed lexicals accepted by a conversion are counted, not failed.", ref="5/C20, 11"),
+ "C12": dict(cat="exploration", tech="proptest list/compound-literal/graph shape ingredients x options; serialise -> parse round trip with exact isomorphism oracle; supervised child process for crash capture",
+   text="Datasets built from well-/ill-formed rdf list chains, compound-literal shapes, shared blank nodes across graphs, rdf:JSON literals and non-representable quads, under every lossless option combination; output must parse back exactly isomorphic to the representable part. Runs in a supervised child so that stack overflows are attributed to a case.",
+   note="Trusted: iso.rs, harness definition of 'representable', own RFC 8785 writer. Third-party (json-ld 0.15) losses recorded as trigger-keyed known findings; spec-mandated loss of rdf:type rdf:List on compacted lists is a known finding.", ref="5/C12, 11"),
+ "C18": dict(cat="exploration", tech="proptest graphs over XML-legal/illegal text, QName split points, reserved names, odd blank labels x indentation; own XML well-formedness checker + parse-back exact isomorphism; metamorphic indentation relation",
+   text="Serialising must fail with an error or give a well-formed document (own XML 1.0 checker) that sophia's parser reads back isomorphic to the expressible part; must-succeed class (QName-able predicates, XML-legal text) may not fail or lose anything; parse at indentation k equals parse at 0.",
+   note="Trusted: harness XML well-formedness checker, iso.rs. Only sophia's parser is used as RDF/XML reader. rio_xml dropping whitespace-only literals on parse is a known finding.", ref="5/C18, 11"),
 }
 NOT_APPLICABLE = []
 def main():
